@@ -5,6 +5,7 @@ whose sorted-permutation theorem for every strict weak order is the C06 theorem 
 -/
 import TetlProofs.C09.Move
 import TetlProofs.C06.Gnome
+import TetlProofs.C09.Stable
 namespace Tetl.C09
 open Tetl
 
@@ -60,5 +61,17 @@ theorem msetCtor_eq_spec (hw : StrictWeak lt) (heq : EquivIsEq lt) (cap : Nat) (
         · simp [ha, ih]
     rw [hr, hr, h2.count_eq]
   exact Tetl.C06.stableSort_unique hw.toC06 r c h2 h3 hf
+
+/-- `etl::sort` (gnome sort) over the whole vector IS the stable sort, for every strict weak order -/
+theorem ms_sort_stable (hw : StrictWeak lt) (l : List α) :
+    Tetl.C06.sort lt l 0 l.length = .ok (Spec.multiset lt l) := by
+  have := gnomeSort_eq_stableSort lt hw.toC06 [] l []
+  simpa [Tetl.C06.sort, Spec.multiset, Tetl.C06.Spec.stableSort] using this
+
+/-- STABILITY, no hypothesis on `==`: for every strict weak order the constructor leaves exactly the stable sort of the
+    container (equivalent elements keep their order) — the sequence `std::multiset` builds from the same range -/
+theorem msetCtor_eq_stable (hw : StrictWeak lt) (cap : Nat) (c : List α) (hfit : c.length ≤ cap) :
+    msetCtor lt cap c = .ok (Spec.multiset lt c) := by
+  simp only [msetCtor, svCtor_eq cap c hfit, ms_sort_stable hw c]
 
 end Tetl.C09
